@@ -109,15 +109,21 @@ func genPopt(r drv.Rand) poptd {
 		return poptd{"PIDHVerifierOpts 3", func(w *world) op.Option { return op.WithIDTokenHintVerifierOpts(w.idhOpts...) }}
 	case k == 13:
 		return poptd{"PKeySets", func(w *world) op.Option {
-			if r.Bool() {
-				return op.WithAccessTokenKeySet(&op.OpenIDKeySet{Storage: w.backend.Store})
-			}
-			return op.WithIDTokenHintKeySet(&op.OpenIDKeySet{Storage: w.backend.Store})
+			return op.WithAccessTokenKeySet(w.sharedKS) // the caller's ONE key set value, whoever gets it
 		}}
 	case k == 14:
 		return poptd{"PCors 1", func(w *world) op.Option { return op.WithCORSOptions(w.corsOpt) }}
 	}
 	return poptd{"PLogger", func(w *world) op.Option { return op.WithLogger(quiet) }}
+}
+
+func (w *world) cachedOpt(o poptd) op.Option {
+	if v, ok := w.optCache[o.coq]; ok {
+		return v
+	}
+	v := o.mk(w)
+	w.optCache[o.coq] = v
+	return v
 }
 
 func newProvider(i, stor int, opts []poptd, variant int) opd {
@@ -126,8 +132,16 @@ func newProvider(i, stor int, opts []poptd, variant int) opd {
 
 func newProviderCaps(i, stor int, opts []poptd, variant, caps int, lists bool) opd {
 	var cs []string
+	insecure := false
 	for _, o := range opts {
 		cs = append(cs, o.coq)
+		insecure = insecure || o.coq == "PInsecure"
+	}
+	if insecure && variant < 2 { // a static https issuer would hide the flag: use the caller's shared issuer-function value
+		variant = 4
+	}
+	if variant >= 4 {
+		cs = append(cs, fmt.Sprintf("PIssuerFn %d", variant-3))
 	}
 	return opd{coq: fmt.Sprintf("(NewProvider %d %d [%s])", i, stor, strings.Join(cs, "; ")), kind: "prov", inst: i,
 		class: "NewProvider", sub: fmt.Sprintf("opts%d-v%d-caps%d-lists=%v", min(len(opts), 3), variant, caps, lists),
@@ -136,19 +150,25 @@ func newProviderCaps(i, stor int, opts []poptd, variant, caps int, lists bool) o
 			w.stores[stor] = st
 			oo := []op.Option{op.WithLogger(quiet)}
 			for _, o := range opts {
-				oo = append(oo, o.mk(w))
+				oo = append(oo, w.cachedOpt(o)) // the SAME option value whenever the same option is used again in this run
+			}
+			cfg := w.sharedCfg // ONE *op.Config for the providers of a run
+			if lists {
+				cfg = provCfgLists(true)
 			}
 			var p *op.Provider
 			var err error
 			switch variant {
+			case 4, 5: // the caller's issuer-function value, shared by every provider built from it
+				p, err = op.NewProvider(cfg, capStorage(st, caps), w.issuerFns[variant-4], oo...)
 			case 1:
-				p, err = op.NewOpenIDProvider(opfix.Issuer, provCfgLists(lists), capStorage(st, caps), oo...)
+				p, err = op.NewOpenIDProvider(opfix.Issuer, cfg, capStorage(st, caps), oo...)
 			case 2:
-				p, err = op.NewDynamicOpenIDProvider("", provCfgLists(lists), capStorage(st, caps), oo...)
+				p, err = op.NewDynamicOpenIDProvider("", cfg, capStorage(st, caps), oo...)
 			case 3:
-				p, err = op.NewForwardedOpenIDProvider("", provCfgLists(lists), capStorage(st, caps), oo...)
+				p, err = op.NewForwardedOpenIDProvider("", cfg, capStorage(st, caps), oo...)
 			default:
-				p, err = op.NewProvider(provCfgLists(lists), capStorage(st, caps), op.StaticIssuer(opfix.Issuer), oo...)
+				p, err = op.NewProvider(cfg, capStorage(st, caps), op.StaticIssuer(opfix.Issuer), oo...)
 			}
 			if err == nil {
 				w.inst[i] = p
@@ -294,7 +314,10 @@ func provReq(i, stor, q int) opd {
 					out = append(out, 0)
 					continue
 				}
-				rel := strings.TrimPrefix(s, opfix.Issuer)
+				rel := s
+				if u, err := url.Parse(s); err == nil {
+					rel = u.Path
+				}
 				out = append(out, w.reg.id("ep:"+rel+"|"+rel))
 			}
 			for _, k := range []string{"claims_supported", "scopes_supported"} {
@@ -305,6 +328,16 @@ func provReq(i, stor, q int) opd {
 					}
 				}
 				out = append(out, w.reg.id(listKey(l, len(l))))
+			}
+			iss, _ := r.JSON["issuer"].(string)
+			ep, _ := r.JSON["token_endpoint"].(string)
+			switch { // is this provider's issuer (and are its endpoints) http:// ?
+			case strings.HasPrefix(iss, "https://") && strings.HasPrefix(ep, "https://"):
+				out = append(out, 0)
+			case strings.HasPrefix(iss, "http://") && strings.HasPrefix(ep, "http://"):
+				out = append(out, 1)
+			default:
+				out = append(out, 90)
 			}
 			return out
 		}
@@ -680,6 +713,25 @@ func clientCall(c, k int) opd {
 	}
 	o.probe = clientProbe(func(w *world) { o.run(w) })
 	return o
+}
+
+// oidc.FindMatchingKey / FindKey on a caller-owned key slice passed variadically
+func findKey(kid, use, alg string, find bool) opd {
+	return opd{coq: "(FindKey 7)", class: "FindKey", sub: fmt.Sprintf("kid=%v-use=%v-alg=%s-find=%v", kid != "", use != "", alg, find),
+		run: func(w *world) {
+			var err error
+			if find {
+				_, ok := oidc.FindKey(kid, use, alg, w.keySlice...)
+				if !ok {
+					err = oidc.ErrKeyNone
+				}
+			} else {
+				_, err = oidc.FindMatchingKey(kid, use, alg, w.keySlice...)
+			}
+			if err == nil {
+				okInc("FindKey")
+			}
+		}}
 }
 
 func devGetAudience() opd {
